@@ -8,7 +8,7 @@ import hashlib
 import random
 import struct
 
-from vflib import core, unitrun
+from vflib import core, simrun, unitrun
 
 BOUNDARY_SEEDS = [0, 1, 2, 0x7FFFFFFE, 0x7FFFFFFF, 0x80000000, 0x80000001, 0xFFFFFFFE, 0xFFFFFFFF]
 
@@ -160,6 +160,106 @@ def gen_cases(rng, nbase, nsens):
     return cases
 
 
+# ---------------------------------------------------------------------------
+# Engine A: what the real client puts on the wire, and which raw-login reply it accepts
+
+def scn_wire(params):
+    from simnet import mserver, proto, scen
+    from simnet.scen import US
+    seed = params["seed"]
+    pw = bytes.fromhex(params["password_hex"])
+    ch = params["challenge"]
+    out = {"violations": [], "nontrivial": [], "stats": {"wire_dns_logins": 0, "wire_raw_logins": 0, "wire_raw_replies_judged": 0},
+           "evaluations": 0, "sets": {}}
+    sim = scen.Sim("c19-%d" % params["idx"], seed)
+    try:
+        k = sim.k
+        mode = params["reply"]          # good | dns-hash | plus1 | bitflip
+
+        def hook(step, q, default, src):
+            if step != "RAW" or default is None or mode == "good":
+                return default
+            if mode == "dns-hash":
+                dg = oracle(pw, ch)
+            elif mode == "plus1":
+                dg = oracle(pw, ch + 1)
+            else:
+                b = bytearray(oracle(pw, ch - 1))
+                b[params["flip"] // 8] ^= 1 << (params["flip"] % 8)
+                dg = bytes(b)
+            return proto.raw_frame(proto.RAW_LOGIN, default[3] & 15, dg)
+
+        hs = mserver.HandshakeServer(scen.SERVER_IP, sim.domain, pw, challenge=ch, userid=params["userid"], hook=hook)
+        k.add_actor(hs.ip, hs)
+        c = k.spawn("cli0", "client", [sim.cli_bin, "-f"] + ([] if params["raw"] else ["-r"]) + ["-T", params["qtype"], "-P", pw, scen.SERVER_IP, sim.domain],
+                    ["10.53.1.1"], env={"IODINE_PASS": ""}, san_env=sim.env)
+        sim.run_until(lambda: sim.client_in_tunnel(c) or not c.alive(), 60 * US)
+        k.run(k.now + 3 * US)
+        wit = {"seed": seed, "password": pw.hex(), "password_len": len(pw), "challenge": "0x%08x" % ch, "params": params}
+        nd = len(hs.domain)
+        for q in hs.queries:
+            labels = q.qd[0][0]
+            text = b"".join(labels[:len(labels) - nd])
+            if text[:1].lower() != b"l":
+                continue
+            raw = proto.BASE32.decode(text[1:])
+            out["stats"]["wire_dns_logins"] += 1
+            out["evaluations"] += 1
+            want = oracle(pw, ch)
+            if len(raw) < 17 or raw[1:17] != want or raw[0] != params["userid"]:
+                out["violations"].append(("C19:wire:login-digest", "the client's login message carries %s, the documented response for password len %d challenge 0x%08x is %s"
+                                          % (raw[1:17].hex(), len(pw), ch, want.hex()), wit))
+            break
+        rawlog = [d for d in hs.raw_seen if len(d) >= 4 and (d[3] & 0xF0) == proto.RAW_LOGIN]
+        if rawlog:
+            out["stats"]["wire_raw_logins"] += 1
+            out["evaluations"] += 1
+            want = oracle(pw, ch + 1)
+            if rawlog[0][4:20] != want:
+                out["violations"].append(("C19:wire:raw-login-digest", "raw login carries %s, documented response for challenge+1 is %s" % (rawlog[0][4:20].hex(), want.hex()), wit))
+            # did the client accept the server's reply?  after acceptance it never does the DNS-mode negotiation steps
+            steps_after = [s for s, _t in hs.steps]
+            went_raw = not any(s in ("Z", "S", "O", "R", "N") for s in steps_after) and any(len(d) >= 4 and (d[3] & 0xF0) in (proto.RAW_PING, proto.RAW_DATA) for d in hs.raw_seen)
+            out["stats"]["wire_raw_replies_judged"] += 1
+            out["evaluations"] += 1
+            if mode == "good" and not went_raw and c.alive():
+                out["violations"].append(("C19:wire:correct-raw-reply-rejected", "the client did not accept the server's raw login reply MD5(challenge-1) for challenge 0x%08x" % ch, wit))
+            if mode != "good" and went_raw:
+                out["violations"].append(("C19:wire:wrong-raw-reply-accepted", "the client accepted a raw login reply that is not MD5(challenge-1) (%s)" % mode, wit))
+            out["nontrivial"].append(repr(("wire-raw", mode, _lenbucket(len(pw)), went_raw)))
+        if out["stats"]["wire_dns_logins"]:
+            out["nontrivial"].append(repr(("wire-dns", _lenbucket(len(pw)), params["qtype"], "high" if any(b >= 0x80 for b in pw) else "ascii")))
+        h = sim.health(c)
+        if h.startswith("sanitizer") or h == "stalled":
+            out["inconclusive"] = "client-" + h.split(":")[0]
+        if params["idx"] < 2:
+            out["sample"] = {"wire": True, "password_len": len(pw), "challenge": "0x%08x" % ch, "raw": params["raw"], "reply": mode,
+                             "dns_logins_seen": out["stats"]["wire_dns_logins"], "raw_logins_seen": out["stats"]["wire_raw_logins"]}
+        return out
+    finally:
+        sim.close()
+
+
+def wire_params(ctx, rng):
+    n = ctx.pick(160, 3000)
+    plist = []
+    lens = list(range(1, 41))
+    for i in range(n):
+        ln = lens[i % 40] if i < 80 else rng.choice([1, 8, 16, 31, 32, 32, 33, 40])
+        style = rng.randrange(3)
+        if style == 0:
+            pw = bytes(rng.randint(33, 126) for _ in range(ln))
+        elif style == 1:
+            pw = bytes(rng.randint(0x80, 0xFF) for _ in range(ln))
+        else:
+            pw = bytes(rng.randint(1, 255) for _ in range(ln))
+        plist.append({"idx": i, "seed": ctx.seed * 100000 + i, "password_hex": pw.hex(),
+                      "challenge": rng.choice(BOUNDARY_SEEDS + [rng.getrandbits(32)] * 6), "userid": rng.choice([0, 3, 15]),
+                      "raw": i % 2 == 0, "reply": rng.choice(["good", "good", "dns-hash", "plus1", "bitflip"]), "flip": rng.randrange(128),
+                      "qtype": rng.choice(["NULL", "TXT", "CNAME", "MX"])})
+    return plist
+
+
 def run(ctx):
     res = core.Result()
     res.rule = ("login_calculate(out,16,pass,seed) from the sanitizer-built login.o+md5.o, fed through an exact-size heap "
@@ -211,9 +311,14 @@ def run(ctx):
     def input_for(i):
         return "".join("%s %d %s\n" % (cases[k].op, cases[k].seed, cases[k].buf.hex()) for k in shard_cases[i]).encode()
 
+    wire_res = core.Result()
     with core.Build() as b:
         drv = b.unit("login", ["login.c"], objs=["login", "md5"], libs=())
         results = unitrun.run_sharded(res, "C19", drv, sh, lambda i: [], input_for=input_for, jobs=ctx.jobs)
+        if not ctx.replay:
+            simrun.run_scenarios(wire_res, b, scn_wire, wire_params(ctx, random.Random(ctx.seed * 77 + 19)), jobs=ctx.jobs)
+        elif "params" in (ctx.replay.get("witness") or {}):
+            simrun.run_scenarios(wire_res, b, scn_wire, [ctx.replay["witness"]["params"]], jobs=1)
 
     got = [None] * len(cases)
     for i, rc, out, _err, _logdir in results:
@@ -288,9 +393,18 @@ def run(ctx):
                 res.sample("password=%s len=%d seed=0x%08x (int %d) -> %s"
                            % (c.buf[:c.plen].hex() or "(empty)", c.plen, c.seed, c.witness()["seed_as_int"], g.hex()))
     # the driver reported E <cases executed>; make sure that is what was compared
-    if not ctx.replay and compared != res.evaluations and not res.violations and not res.inconclusive:
+    if not ctx.replay and compared != res.evaluations and not res.violations and not res.inconclusive and not wire_res.violations:
         res.harness_errors.append("driver executed %d cases, %d digests compared" % (res.evaluations, compared))
-    res.evaluations = compared
+    res.evaluations = compared + wire_res.evaluations
+    res.violations += wire_res.violations
+    res.harness_errors += wire_res.harness_errors
+    for sig in wire_res.nontrivial:
+        res.nt(sig)
+    for kk, vv in wire_res.extra.items():
+        res.extra[kk] = vv
+    for sm in wire_res.samples[:2]:
+        res.samples.append(sm)
+    res.inconclusive += wire_res.inconclusive
     for v, n in sorted(by_variant.items()):
         res.extra["confirmed_" + v] = n
     res.exhaustive = False
